@@ -2534,10 +2534,18 @@ func (l *Lowerer) lowerCompositeConstant(name string, declType parser.Type, cons
 					bits = uint64(float32ToHalf(f32val))
 				}
 			} else if scalar.Kind == ir.ScalarFloat {
-				// Try float constant evaluation: e.g., f32(-expr)
-				val, fErr := l.evalConstantFloatExpr(construct.Args[0])
-				if fErr != nil {
-					return fmt.Errorf("module constant '%s': %w", name, fErr)
+				// An integer argument is evaluated with integer semantics first
+				// (f32(7i / 2i) is f32(3), not 3.5); anything else with the
+				// float evaluator: e.g., f32(-expr)
+				var val float64
+				if k, iv, iErr := l.evalConstantIntExpr(construct.Args[0]); iErr == nil && (k == ir.ScalarSint || k == ir.ScalarUint) {
+					val = float64(iv)
+				} else {
+					fv, fErr := l.evalConstantFloatExpr(construct.Args[0])
+					if fErr != nil {
+						return fmt.Errorf("module constant '%s': %w", name, fErr)
+					}
+					val = fv
 				}
 				if scalar.Width == 2 {
 					bits = uint64(float32ToHalf(float32(val)))
